@@ -112,6 +112,30 @@ fn small_circ(layout: &[usize]) -> Circ {
     b.out(&[x, y])
 }
 
+/// See step 6 of `main`.  Returns the number of message pairs compared.
+fn peer_pad_monitor(r: &crate::exec::RunResult<Vec<bool>>) -> Result<u64, String> {
+    let mut pairs = 0u64;
+    for (i, a) in r.msgs.iter().enumerate() {
+        if !matches!(a.label.as_str(), "CO_OT_s" | "CO_OT_r" | "ALSZ_OT_setup") {
+            continue;
+        }
+        for b in r.msgs[i + 1..].iter().filter(|b| b.from == a.from && b.to != a.to && b.label == a.label && b.ord == a.ord) {
+            pairs += 1;
+            if a.bytes == b.bytes {
+                return Err(format!("party {} sent the same {:?} message (#{}) to parties {} and {}", a.from, a.label, a.ord, a.to, b.to));
+            }
+            if a.label == "ALSZ_OT_setup" {
+                let (Val::Vec(ca), Val::Vec(cb)) = (decode_msg(&a.label, &a.bytes)?, decode_msg(&b.label, &b.bytes)?) else { continue };
+                let same = ca.iter().zip(cb.iter()).filter(|(x, y)| x == y).count();
+                if same > 0 {
+                    return Err(format!("{same} of {} vectors of the OT matrices party {} sent to parties {} and {} (#{}) are identical", ca.len(), a.from, a.to, b.to, a.ord));
+                }
+            }
+        }
+    }
+    Ok(pairs)
+}
+
 /// See step 5 of `main`.  Returns the number of block pairs compared.
 fn ot_matrix_monitor(r: &crate::exec::RunResult<Vec<bool>>) -> Result<u64, String> {
     let mut pairs = 0u64;
@@ -192,6 +216,20 @@ pub fn main(tier: Tier, seed: u64) -> i32 {
         let ok = check_honest(&case, &r);
         (case, r, ok)
     });
+    // 6. a party's OT sessions with different peers use independent randomness: what it sends to two
+    // peers in the same batch (Chou-Orlandi points, the columns of the OT-extension matrix) never
+    // coincides - two peers who pool their views would otherwise hold both pads of a column and unmask
+    // the party's choice bits (its mask shares)
+    let mut peer_pairs = 0u64;
+    for (case, r, ok) in ni_res.iter() {
+        if ok.is_ok() && case.n() >= 3 {
+            match peer_pad_monitor(r) {
+                Ok(k) => peer_pairs += k,
+                Err(e) => rep.violation("ot_randomness_reused_across_peers", format!("{}: {e}", case.show()), json!({"kind":"mpc_case","case":case})),
+            }
+        }
+    }
+    rep.set("ot_messages_compared_across_peers", json!(peer_pairs));
     let mut ni_checked = 0u64;
     for (ci, (_, h)) in ni_cfgs.iter().enumerate() {
         let runs: Vec<&(MpcCase, RunResult<Vec<bool>>, Result<(), String>)> =
@@ -447,7 +485,7 @@ pub fn main(tier: Tier, seed: u64) -> i32 {
     rep.evaluations = (ni_runs.len() + fruns.len() + ccfgs.len()) as u64;
     rep.distinct_nontrivial = (ni_runs.len() - ni_cfgs.len() + fruns.len() + ccfgs.len()) as u64;
     rep.exhaustive = Some(true);
-    rep.rule = "1. per configuration and tape, every input assignment of the honest party: all messages it sends are diffed (only 'masked inputs' [exact difference], its broadcast echo, 'labels' and 'lambda' may differ); 2. own mask share per wire reconstructed from the transcript over the enumerated tape set (integers VERIF_SEED*N..+N) for input all-0 and all-1: both values occur, count within 5.5 sigma; 3. probed global keys and 128-bit own-mask vectors pairwise distinct over tapes and parties; 4. 128-wire canary: neither input bits nor own shares occur in the party's traffic as bool bytes or packed at any bit offset; 5. on batches wider than 1024 OTs, no two 128-bit blocks of an OT-extension matrix have the same XOR in all 128 vectors (that XOR would be the receiver's own choice bits = mask shares). distinct = (configuration, input, tape); the first run of every non-interference configuration is the reference and is not counted as non-trivial".into();
+    rep.rule = "1. per configuration and tape, every input assignment of the honest party: all messages it sends are diffed (only 'masked inputs' [exact difference], its broadcast echo, 'labels' and 'lambda' may differ); 2. own mask share per wire reconstructed from the transcript over the enumerated tape set (integers VERIF_SEED*N..+N) for input all-0 and all-1: both values occur, count within 5.5 sigma; 3. probed global keys and 128-bit own-mask vectors pairwise distinct over tapes and parties; 4. 128-wire canary: neither input bits nor own shares occur in the party's traffic as bool bytes or packed at any bit offset; 5. on batches wider than 1024 OTs, no two 128-bit blocks of an OT-extension matrix have the same XOR in all 128 vectors (that XOR would be the receiver's own choice bits = mask shares); 6. n>=3: what a party sends to two peers in the same OT batch (Chou-Orlandi messages, every vector of the OT-extension matrix) never coincides. distinct = (configuration, input, tape); the first run of every non-interference configuration is the reference and is not counted as non-trivial".into();
     rep.assumptions = vec![
         "the frequency clause is a count over an enumerated tape set, not a decision by exhaustive exploration (DESIGN.md 4.C06)".into(),
         "entropy reaches the engine only through the harness's getrandom backend".into(),
